@@ -102,7 +102,9 @@ def check_real_clauses(run: Run, st, griffe, r: dict, text: str, lines: list, op
         run.violation(sig, f"{style} parser raised {r['exc']}({r.get('message')}) at {r['frames']} on {text!r} (parent={parent}, options={ {k: v for k, v in options.items()} })", case)
         return False
     if r["modified"]:
-        run.violation({"style": style, "clause": "unmodified"}, f"{style}: {r['modified']} after parsing {text!r}", case)
+        what = ("docstring-attributes" if r["modified"].startswith("docstring attributes") else "shared-options" if "shared" in r["modified"]
+                else "parent" if r["modified"].startswith("parent") else "history")
+        run.violation({"style": style, "clause": "unmodified", "what": what}, f"{style}: {r['modified']} after parsing {text!r} (options={options})", case)
     wf = well_formed(griffe, r["sections"])
     if wf:
         run.violation({"style": style, "clause": "well-formed", "what": wf.split(" ")[0]}, f"{style}: {wf} for {text!r} (parent={parent}, options={options})", case)
@@ -150,7 +152,8 @@ def replay_cases(run: Run, st, griffe, parents: Parents, cases: list, rnd: rando
             v = (n * 7 + j) % 12
             options = option_fills(style, case["opts"], case.get("excl", []), parent, which, rnd)
             text, parts = st.concretise(lines, v)
-            r = real_parse(griffe, parents, style, text, parent, options, timeout=3.0 if stats.timeouts == 0 else 0.5)
+            history = 2 if (n + j) % 12 == 0 else 1 if (n + j) % 3 == 0 else 0       # second / third parse of the same docstring
+            r = real_parse(griffe, parents, style, text, parent, options, timeout=3.0 if stats.timeouts == 0 else 0.5, history=history)
             stats.parses += 1
             if r["exc"] == "Timeout":
                 stats.timeouts += 1
@@ -222,7 +225,7 @@ def _long_one(run: Run, style: str, st, griffe, parents: Parents, n_examples: in
             text, _parts = st.concretise(lines, v)
             if count.get("timeouts", 0) >= 4:
                 return
-            r = real_parse(griffe, parents, style, text, parent, options)
+            r = real_parse(griffe, parents, style, text, parent, options, history=v % 3)
             if r["exc"] == "Timeout":
                 count["timeouts"] = count.get("timeouts", 0) + 1
             if r["unstable"]:
@@ -257,11 +260,12 @@ def run_tlc(module: str, cfg: str, **kw):
     return res
 
 
-EXPECTED_DEFECTS = {
-    ("google", "defect"): ["NoIndexErrorSingleItemBlock", "NoAttributeErrorPropertySummary", "NoValueErrorEmptyAttributeName", "NoAliasResolutionErrorInAttributes"],
-    ("numpy", "defect"): ["NoValueErrorEmptyAttributeName", "NoIndexErrorTupleOverrun", "PlainText"],
-    ("numpy", "defect2"): ["NoValueErrorEmptyAttributeName", "NoAliasResolutionErrorInAttributes"],
-    ("sphinx", "defect"): ["NoValueErrorEmptyAttributeName", "NoAliasResolutionErrorInAttributes"],
+# regression domains: the small alphabets on which the crashes repaired in /repo (findings.d/C12.json, status fixed) were reachable;
+# NoCrash must hold on the model and every final state is replayed with every candidate parent, so a regression is a VIOLATION.
+# defect domain: the one recorded defect left (numpy: the empty docstring gives no section) - PlainText fails on the model.
+SMALL_DOMAINS = {
+    ("google", "regress"): [], ("numpy", "regress"): [], ("numpy", "regress2"): [], ("sphinx", "regress"): [],
+    ("numpy", "defect"): ["PlainText"],
 }
 
 TLC_JOBS = {
@@ -318,7 +322,7 @@ def main(tier: str, replay: str | None = None):
         for style, st in styles.items():
             for consts, workers, cap in TLC_JOBS[style][tier]:
                 jobs[style, json.dumps(consts, sort_keys=True)] = (pool.submit(run_tlc, st.module, f"{st.module}_seq.cfg", workers=workers, constants=dict(consts, EMIT="TRUE"), timeout=3000, heap="6g"), cap)
-            for (dstyle, dlabel) in EXPECTED_DEFECTS:
+            for (dstyle, dlabel) in SMALL_DOMAINS:
                 if dstyle == style:
                     jobs[style, dlabel] = (pool.submit(run_tlc, st.module, f"{st.module}_{dlabel}.cfg", workers=1, timeout=600, extra=["-continue"]), None)
     print(f"TLC done after {time.time() - t0:.1f}s", flush=True)
@@ -327,42 +331,44 @@ def main(tier: str, replay: str | None = None):
     for (style, label), (fut, cap) in jobs.items():
         st = styles[style]
         res = fut.result()
-        if style in stuck and not label.startswith("defect"):
+        if style in stuck and (style, label) not in SMALL_DOMAINS:
             tlc.must(res)
             run.add_tlc(res)
             run.note(f"{style} {label}: replay skipped (the parser already ran into the step budget several times)")
             continue
-        if label.startswith("defect"):
-            # the defect domain: the per-defect invariants are expected to FAIL on the model (TLC runs with -continue and reports
-            # each); every final state of that domain is replayed, so each model-predicted defect must reproduce on the real code
+        if (style, label) in SMALL_DOMAINS:
             tlc.must(res, allow_violations=True)
             res.violated = sorted(set(res.violated))       # -continue reports every violating state
             run.add_tlc(res)
-            violated = res.violated
-            run.extra.setdefault("defect_domain", {})[f"{style}:{label}"] = violated
-            if violated != sorted(EXPECTED_DEFECTS[style, label]):
-                run.note(f"{style}: {label} domain: TLC reports {violated} violated on the model, documented defects: {sorted(EXPECTED_DEFECTS[style, label])}")
+            run.extra.setdefault("small_domains", {})[f"{style}:{label}"] = res.violated
+            if res.violated != sorted(SMALL_DOMAINS[style, label]):
+                print(res.tail)
+                die(f"{PROP}: {style} {label} domain: TLC reports {res.violated} violated on the model, expected {sorted(SMALL_DOMAINS[style, label])}")
             stats = Stats()
             before = sum(h["count"] for h in run.known_hits.values()) + len(run.violations)
-            replay_cases(run, st, griffe, parents, res.cases, rnd, stats, "tlc:defect-domain", 3 if tier == "quick" else ALL_PARENTS)
+            replay_cases(run, st, griffe, parents, res.cases, rnd, stats, f"tlc:{label}-domain", ALL_PARENTS)
             after = sum(h["count"] for h in run.known_hits.values()) + len(run.violations)
-            predicted = sum(1 for c in res.cases if c["outcome"] == "crashed")
-            run.note(f"{style}: defect domain: {predicted} final state(s) with a model-predicted crash, {after - before} violation(s) observed on the real parser, "
-                     f"{stats.model_crash_not_real} predicted crash(es) not reproduced")
+            if SMALL_DOMAINS[style, label]:
+                run.note(f"{style}: {label} domain: TLC reports {res.violated} violated on the model; {after - before} violation(s) of the real parser in its {len(res.cases)} final states")
             report_drift(run, style, stats)
             continue
         tlc.must(res)
         run.add_tlc(res)
         cases = res.cases
         if cap is not None and len(cases) > cap:
-            top = max(len(x["lines"]) for x in cases)
-            short = [c for c in cases if len(c["lines"]) < top]
-            longest = [c for c in cases if len(c["lines"]) == top]
-            crashes = [c for c in longest if c["outcome"] == "crashed"]
-            rest = [c for c in longest if c["outcome"] != "crashed"]
-            short = short if len(short) <= cap else rnd.sample(short, cap)
-            picked = short + rnd.sample(crashes, min(len(crashes), cap // 10)) + rnd.sample(rest, min(len(rest), cap))
-            run.note(f"{style} {label}: replayed {len(picked)} of {len(cases)} emitted cases (a seeded sample)")
+            # stratified: two cases of every skeleton (sequence of line kinds + outcome + section kinds the spec produced), the rest at random
+            strata: dict = {}
+            for c in cases:
+                key = (tuple(ln["k"] for ln in c["lines"]), c["outcome"], tuple(x["kind"] for x in c["sections"]))
+                strata.setdefault(key, []).append(c)
+            picked, rest = [], []
+            for group in strata.values():
+                rnd.shuffle(group)
+                picked += group[:2]
+                rest += group[2:]
+            if len(picked) < cap:
+                picked += rnd.sample(rest, min(len(rest), cap - len(picked)))
+            run.note(f"{style} {label}: replayed {len(picked)} of {len(cases)} emitted cases ({len(strata)} skeletons, at least two cases of each, the rest a seeded sample)")
             run.exhaustive = False
             cases = picked
         if json.loads(label).get("EMITMOD", 1) != 1:
